@@ -689,7 +689,7 @@ func main() {
 	driver.Main(driver.Property{
 		ID:        "C11",
 		Level:     "exploration",
-		Rule:      "sequential: Share/ShareWithConfig (8 reset-flag combinations × connectors publish, behavior, replay 1, replay 2), Share, ShareReplay, ShareReplayWithConfig, Connectable/ConnectableWithConfig (ResetOnDisconnect on/off × connectors): EVERY sequence over {Subscribe (≤3 subscribers), Unsubscribe i, source Next/Error/Complete, Connect, disconnect} up to the bound on a fresh instance over an instrumented puppet source; after each event the per-subscriber traces, the number of upstream subscriptions and the upstream liveness are compared with the reference model, and the source asserts inside its subscribe function that no other subscription to it is live. Concurrent: 2-4 clients subscribing/unsubscribing/connecting while an emitter goroutine feeds the live upstream subscription, yields at the Share/connectable hook points; invariants: ≤1 live upstream subscription, grammar, no overlap, shared order, upstream released at reference count zero. Non-trivial: sequences executed / values delivered.",
+		Rule:      "sequential: Share/ShareWithConfig (8 reset-flag combinations × connectors publish, behavior, replay 1, replay 2), Share, ShareReplay, ShareReplayWithConfig, Connectable/ConnectableWithConfig (ResetOnDisconnect on/off × connectors): EVERY sequence over {Subscribe (≤3 subscribers), Unsubscribe i, source Next/Error/Complete, Connect, disconnect} up to the bound on a fresh instance over an instrumented puppet source; after each event the per-subscriber traces, the number of upstream subscriptions and the upstream liveness are compared with the reference model, and the source asserts inside its subscribe function that no other subscription to it is live. Concurrent: 2-4 clients subscribing/unsubscribing/connecting while an emitter goroutine feeds the live upstream subscription, yields at the Share/connectable hook points; invariants: ≤1 live upstream subscription, grammar, no overlap, shared order, upstream released at reference count zero. Non-trivial: sequences executed / values delivered. Also connrace: k ∈ {2,4,8} goroutines call Connect at once on an unconnected connectable (source set-up instantaneous or 300 µs), nobody disconnects: exactly one source subscription, a value delivered once, every handle disconnects.",
 		Assume:    []string{"reference model written from the ShareConfig/ConnectableConfig documentation and the property statement (DESIGN Appendix B)"},
 		Plan:      plan,
 		Run:       runCase,
